@@ -23,7 +23,7 @@ ASSUMPTIONS = ["inputs simplified, one topology-bearing root per tree", "coalesc
 def cases(tier, seed):
     sp = tsspace.space(tier, renumber=("reverse", "rotate"))
     out = []
-    for a in sp.args:
+    for a in sp.args + tsspace.wide_family():
         out.append({"arg": a, "K": None})
         if a["L"] > 1:
             for s in range(a["n"]):
@@ -33,7 +33,7 @@ def cases(tier, seed):
         "cases": out,
         "states": sp.states,
         "transitions": sp.transitions,
-        "bound": f"{sp.describe()} x K(every sample x every locus isolated) x prior distributions",
+        "bound": f"{sp.describe()} + wide family W5..W7 (a node with 5-7 distinct descendant counts) x K(every sample x every locus isolated) x prior distributions",
         "exhaustive": True,
     }
 
